@@ -2154,11 +2154,11 @@ fn gen_hist(rng: &mut Rng, keys: &[String], case: u64) -> Hist {
     Hist { causal: rng.gen_bool(0.3), phases, crashes }
 }
 
-/// A hot key: 1100-2600 writes of one key (and a few of a shard neighbour) before the crash, so that the recovered log of one
+/// A hot key: 1100-6500 writes of one key (and a few of a shard neighbour) before the crash, so that the recovered log of one
 /// shard is far longer than any mailbox, batch or window a node might bound, then a write of the same key after the restart.
 fn gen_long_hist(rng: &mut Rng, keys: &[String], case: u64) -> Hist {
     let hot = keys[(case % 2) as usize].clone(); // keys[0], keys[1]: string keys on one shard
-    let n = [1100usize, 1500, 2600][rng.gen_range(0..3)];
+    let n = [1100usize, 2600, 6500][rng.gen_range(0..3)];
     let mut p0: Vec<HOp> = (0..n).map(|i| if i % 97 == 96 { HOp::Set { k: keys[1 - (case % 2) as usize].clone(), v: format!("n{}", i), ex: None } } else if i % 5 == 4 { HOp::Incr { k: hot.clone() } } else { HOp::Set { k: hot.clone(), v: format!("{}", i), ex: None } }).collect();
     p0.push(HOp::Set { k: hot.clone(), v: "last-before-crash".into(), ex: None });
     let p1 = vec![HOp::Set { k: hot.clone(), v: "after".into(), ex: None }, HOp::Set { k: keys[3].clone(), v: "elsewhere".into(), ex: None }];
